@@ -146,30 +146,44 @@ SM_INV = ("pre-state = ARBITRARY state under INV (slot i holds a QoS>0 publish w
 SM_ADMISSION = ("user requests are taken only if inflight < max and no collision is pending - the guard of "
                 "rumqttc::EventLoop::select (async, not executable by the solver; its text is pinned by a syntactic guard)")
 
+SM_QUICK = {
+    "C02": ["out_publish_via_pending_m2", "out_publish_m2", "out_publish_m1", "in_puback_m1", "in_puback_m2", "in_pubrec_m2", "in_pubcomp_m1", "in_pubcomp_m2",
+            "out_subscribe_m2", "out_ping_m2"],
+    "C07": ["out_publish_m1", "out_publish_m2", "out_subscribe_m2", "in_puback_m1", "in_puback_m2", "in_pubrec_m2",
+            "in_pubcomp_m1", "in_pubcomp_m2"],
+    "C10": ["in_puback_m2", "in_pubrec_m2", "in_pubcomp_m2", "in_publish_m2", "in_pubrel_m2", "in_misc_m2", "out_publish_m2",
+            "out_subscribe_m2", "out_ping_m2"],
+    "C11": ["in_puback_m1", "in_puback_m2", "in_puback_m3"],
+    "C18": ["out_ping_m2", "in_misc_m2", "scn_ping_reconnect_m2"],
+}
+# harnesses whose clauses of this property are known to fail on the unchanged tree are listed in known_findings.json
+SM_ALL = {
+    "C02": ["out_", "in_", "scn_ping"],
+    "C07": ["out_publish_m", "out_subscribe", "out_ping", "in_"],
+    "C10": ["out_publish_m", "out_subscribe", "out_ping", "in_", "scn_ping"],
+    "C11": ["in_puback_m"],
+    "C18": ["out_ping", "in_misc", "scn_ping"],
+}
+
+
 def sm_families(prop):
+    pre = "sm::v4::c%s::" % prop[1:]
     return [
-        {"name": "v4_steps", "filters": ["sm::v4::out_", "sm::v4::in_", "sm::v4::scn_ping"],
-         "filters_quick": ["sm::v4::out_publish_m2", "sm::v4::out_subscribe_m2", "sm::v4::out_ping_m2", "sm::v4::in_puback_m2",
-                           "sm::v4::in_pubrec_m2", "sm::v4::in_pubcomp_m2", "sm::v4::in_publish_m2", "sm::v4::in_pubrel_m2",
-                           "sm::v4::in_misc_m2", "sm::v4::scn_ping", "sm::v4::in_puback_m1", "sm::v4::in_pubcomp_m1",
-                           "sm::v4::out_publish_m1"],
-         "min_harnesses_quick": 13, "tier": "quick",
-         "timeout": 900, "jobs": 6, "mem_gb": 16, "min_harnesses": 19, "playback": False,
-         "kind": "I (one inductive step from an arbitrary INV state), one harness per operation kind and inflight limit",
+        {"name": "v4_steps", "filters": [pre + x for x in SM_ALL[prop]],
+         "filters_quick": [pre + x for x in SM_QUICK[prop]], "min_harnesses_quick": len(SM_QUICK[prop]),
+         "tier": "quick", "timeout": 900, "jobs": 6, "mem_gb": 16, "min_harnesses": len(SM_QUICK[prop]), "playback": False,
+         "kind": "I (one inductive step from an arbitrary INV state), one harness per operation kind and inflight limit; "
+                 "instances of this property assert only its own clauses (labelled %s:) plus INV-independent panics" % prop,
          "bounds": "max_inflight concrete per instance in {1,2,3}; held ids, their QoS and identity, pending releases, "
                    "allocator position, last acknowledged id, parked collision, ping flag, manual_acks: all symbolic; "
                    "broker packet ids symbolic over {0..=max+1, 0xFFFF}; unwind 6-8",
-         "asserts": "INV preserved; C02 nothing held is dropped, released publishes are recorded, clean() returns every "
-                    "held publish once with original id/content before any release and a session-present replay "
-                    "re-establishes the state; C07 ids in 1..=max, no overwrite of an unacknowledged slot, window "
-                    "accounting, collision only while its id is held; C10 received packet surfaced first exactly once, "
-                    "PUBACK/PUBREC/PUBCOMP replies, manual_acks, unsolicited acks -> Err without touching the state, one "
-                    "announcement per write; C11 retransmission order = rotation behind the last acknowledged id; C18 "
-                    "ping flag protocol",
+         "asserts": "C02 nothing held is dropped, released publishes are recorded; C07 ids in 1..=max, no overwrite of an "
+                    "unacknowledged slot, window accounting, collision only while its id is held; C10 received packet surfaced "
+                    "first exactly once, PUBACK/PUBREC/PUBCOMP replies, manual_acks, unsolicited acks -> Err without touching "
+                    "the state, one announcement per write; C11 last acknowledged id recorded; C18 ping flag protocol",
          "encodes": SM_V4_FNS, "stubs": SM_STUBS, "assumes": [SM_INV, SM_ADMISSION],
          "outside": ["EventLoop::poll/select, Network::readb, timers (async/tokio)", "max_inflight > 3",
-                     "pre-states outside INV (e.g. ids reused while their QoS2 release is pending are covered only up to "
-                     "the PUBREC step, see DESIGN)"]},
+                     "MqttState::clean() with held publishes (CBMC > 48 GB)", "MQTT 5 state machine"]},
         {"name": "bitset_sizes", "filters": ["sm::v4::bitset_sizes"], "tier": "quick", "timeout": 300, "jobs": 6,
          "kind": "stub contract witness", "bounds": "max_inflight = 3",
          "asserts": "MqttState::new requests max+1 bits for outgoing_rel and 65536 bits for incoming_pub",
@@ -182,7 +196,9 @@ SM_GUARDS = [
                       "let collision = self.state.collision.is_some();",
                       "if !self.pending.is_empty() || (!inflight_full && !collision) => match o {"]},
     {"file": "rumqttc/src/eventloop.rs", "what": "EventLoop::clean carries state.clean() over first, then the drained channel",
-     "must_contain": ["self.pending.extend(self.state.clean());",
+     "ordered": True,
+     "must_contain": ["pub fn clean(&mut self) {", "self.pending.extend(self.state.clean());",
+                      "let mut requests_in_channel: Vec<_> = self.requests_rx.drain().collect();",
                       "self.pending.extend(requests_in_channel);"]},
     {"file": "rumqttc/src/eventloop.rs", "what": "pending dropped when the broker reports no session; errors move state to pending",
      "must_contain": ["if !connack.session_present { self.pending.clear(); }",
@@ -197,7 +213,7 @@ SM_TITLES = {
     "C18": "Client keep-alive pings on time and detects a silent broker, no false alarms",
 }
 for _p, _t in SM_TITLES.items():
-    PROPS[_p] = {"title": _t, "families": sm_families(_p), "guards": SM_GUARDS}
+    PROPS[_p] = {"title": _t, "families": sm_families(_p), "guards": SM_GUARDS, "uses_admission": True}
 
 
 # ---------------------------------------------------------------------------
